@@ -7,7 +7,8 @@
 (*              "fstring_triple", "docstring", "single", "concat",           *)
 (*              "comment" (a comment, not a literal: features there MAY be   *)
 (*              normalised - the control group)                              *)
-(*   Features : "tab", "trailing", "blanks3", "long", "backslash", "hash",   *)
+(*   Features : "tab", "trailing", "blanks3", "blanks2", "long", "backslash",*)
+(*              "hash",                                                     *)
 (*              "crlf_escape", "indent8"                                     *)
 (*   Places   : "module", "in_def", "after_decorator", "between_imports",    *)
 (*              "call_arg", "dict_value"                                     *)
@@ -28,8 +29,9 @@ MultiLine(k) == k \in {"triple", "triple_single", "raw_triple", "bytes_triple", 
 \* a single-line literal cannot contain a run of blank lines or trailing blanks at a line end
 Admissible(k, fs) ==
     /\ Cardinality(fs) <= MaxFeatures
-    /\ (~MultiLine(k) /\ k # "comment" => fs \cap {"blanks3", "trailing", "indent8"} = {})
-    /\ (k = "comment" => fs \cap {"blanks3", "backslash", "crlf_escape"} = {})
+    /\ (~MultiLine(k) /\ k # "comment" => fs \cap {"blanks3", "blanks2", "trailing", "indent8"} = {})
+    /\ (k = "comment" => fs \cap {"blanks3", "blanks2", "backslash", "crlf_escape"} = {})
+    /\ ~({"blanks2", "indent8"} \subseteq fs)
     /\ (k = "raw_triple" => "crlf_escape" \notin fs)
 
 Init == case \in {[kind |-> k, feats |-> fs, place |-> p, len |-> n] :
